@@ -61,6 +61,7 @@ def run(ch, tier):
 def run_generated(ch, tier):
     res = Result()
     cfg = swarm(ch.s('cfg'), Cfg(contracts=True, bump=True, sends=True, notify=True, delays=True), tier)
+    cfg.time_guards = ch.s('cfg').flag(1, 2)     # guards log after()/idle(): stamps must not depend on contract checking
     sp = gen_spec(ch.s('chart'), cfg)
     a = Sim(sp, ignore_contract=False)
     ra = Rec(a.it)
